@@ -310,6 +310,29 @@ def run_foreign(seed):
                             'variable(s) %s, none of which carries it' % (name, foreign, [g.name for g in got]), info))
         except (NotImplementedError, KeyError):
             pass
+    # variables removed and added again (a removed variable's place in the order of introduction may be re-used): a look-up
+    # returns every live carrier, once
+    shared = rdflib.URIRef(NS + 'shared_term')
+    grp = []
+    for k_ in range(rng.randint(3, 5)):
+        gv = m.add_variable('grp%d' % k_, 'dimensionless', cmeta_id='grp%d_id' % k_)
+        m.rdf.add((gv.rdf_identity, rdflib.URIRef(PRED[0] + PRED[1]), shared))
+        grp.append(gv)
+    for step in range(rng.randint(1, 3)):
+        victim = grp.pop(rng.randrange(len(grp) - 1))          # never the most recently added one
+        m.remove_variable(victim)
+        gv = m.add_variable('again%d' % step, 'dimensionless', cmeta_id='again%d_id' % step)
+        m.rdf.add((gv.rdf_identity, rdflib.URIRef(PRED[0] + PRED[1]), shared))
+        grp.append(gv)
+        try:
+            got = m.get_variables_by_rdf(PRED, (NS, 'shared_term'))
+            if sorted(g.name for g in got) != sorted(g.name for g in grp):
+                bad.append(('after removing %s and adding %s, get_variables_by_rdf(shared_term) returns %s, the live carriers are %s'
+                            % (victim.name, gv.name, [g.name for g in got], [g.name for g in grp]), info))
+                break
+        except Exception as e:
+            bad.append(('get_variables_by_rdf(shared_term) raises %r after a removal and an addition' % (e,), info))
+            break
     # objects that are "falsy" (an empty literal, the number 0) are objects like any other, not a wildcard
     P2 = rdflib.URIRef('http://example.org/ns#note')
     carriers = {}
